@@ -42,6 +42,33 @@ def has_root(fn, o, rx, opts=None):
     return any(rx.search(s) for s in rootstrs(fn, o, opts))
 
 
+def _is_unsigned(fn, o):
+    p = op_place(o)
+    if p is not None and len(p) == 1:
+        return bool(re.match(r"^(usize|u8|u16|u32|u64|u128)$", fn.locals[p[0]]))
+    k = o.get("k")
+    return bool(k) and bool(re.match(r"^(usize|u8|u16|u32|u64|u128)$", str(k.get("ty"))))
+
+
+def _norm_const(fn, rel, q, b, is_b):
+    """integer comparisons against a constant have several spellings: `x < k+1` is `x <= k`, `x >= k+1` is `x > k`, and for an unsigned
+    x: `x <= 0` is `x == 0`, `x > 0` is `x != 0`.  -> relation of `q` to the bound the rule asked for (is_b), or None"""
+    v = fn.const_value(b)
+    if not isinstance(v, int) or isinstance(v, bool):
+        return None
+    ty = (b.get("k") or {}).get("ty", "usize")
+    alt = {"<": (v - 1, "<="), ">=": (v - 1, ">"), "<=": (v + 1, "<"), ">": (v + 1, ">=")}.get(rel)
+    if alt is not None and alt[0] >= 0 and is_b(fn, {"k": {"ty": ty, "v": alt[0]}}):
+        return alt[1]
+    return None
+
+
+def _unsigned_zero(fn, rel, q, b):
+    if fn.const_value(b) == 0 and _is_unsigned(fn, q):
+        return {"<=": "==", ">": "!="}.get(rel, rel)
+    return rel
+
+
 def comparisons(fn, is_q, is_b):
     """[(node, dest_local, rel)] with rel the relation `Q rel B` that holds when dest is true"""
     out = []
@@ -52,9 +79,15 @@ def comparisons(fn, is_q, is_b):
         a, b = rv["a"], rv["b"]
         rel = OPS[rv["op"]]
         if is_q(fn, a) and is_b(fn, b):
-            out.append((node, s["lhs"][0], rel))
+            out.append((node, s["lhs"][0], _unsigned_zero(fn, rel, a, b)))
         elif is_b(fn, a) and is_q(fn, b):
-            out.append((node, s["lhs"][0], SWAP[rel]))
+            out.append((node, s["lhs"][0], _unsigned_zero(fn, SWAP[rel], b, a)))
+        elif is_q(fn, a) and _norm_const(fn, rel, a, b, is_b):
+            r2 = _norm_const(fn, rel, a, b, is_b)
+            out.append((node, s["lhs"][0], {"<=": "==", ">": "!="}.get(r2, r2) if (fn.const_value(b) in (1,) and _is_unsigned(fn, a)) else r2))
+        elif is_q(fn, b) and _norm_const(fn, SWAP[rel], b, a, is_b):
+            r2 = _norm_const(fn, SWAP[rel], b, a, is_b)
+            out.append((node, s["lhs"][0], {"<=": "==", ">": "!="}.get(r2, r2) if (fn.const_value(a) in (1,) and _is_unsigned(fn, b)) else r2))
     for c in fn.calls(r"cmp::Partial(Ord|Eq)(<.*>)?>?::(lt|le|gt|ge|eq|ne)$|::(lt|le|gt|ge|eq|ne)$"):
         m = c.name.rsplit("::", 1)[-1]
         if m not in CALL_OPS or len(c.args) != 2 or len(c.dest) != 1:
